@@ -430,10 +430,28 @@ func removesAllBefore(r *core.Run, f *ssa.Function, at ssa.Instruction, isList f
 				continue
 			}
 			for j, a := range hc.Common().Args {
-				if j >= len(h.Params) || !isList(normT(res.Of(a).String())) {
+				if j >= len(h.Params) {
 					continue
 				}
 				pj := fmt.Sprintf("#%d", j)
+				argT := normT(res.Of(a).String())
+				var isOrder bool
+				// the helper ranges over its parameter, or over a field of it (it receives the record that holds the list)
+				hList := func(t string) bool {
+					if !strings.HasPrefix(t, pj) {
+						return false
+					}
+					rest := t[len(pj):]
+					if rest == "" {
+						return isList(argT)
+					}
+					// the Shards of the order record the helper was handed
+					return rest == ".Shards" && isOrder
+				}
+				isOrder = shortTypeName(a.Type()) == "order/types.Order"
+				if !isList(argT) && !isOrder {
+					continue
+				}
 				all := true
 				nret := 0
 				for _, hb := range h.Blocks {
@@ -442,7 +460,7 @@ func removesAllBefore(r *core.Run, f *ssa.Function, at ssa.Instruction, isList f
 					}
 					nret++
 					ret := hb.Instrs[len(hb.Instrs)-1]
-					if !removesAllBefore(r, h, ret, func(t string) bool { return t == pj }, depth+1) {
+					if !removesAllBefore(r, h, ret, hList, depth+1) {
 						all = false
 					}
 				}
